@@ -22,6 +22,8 @@ ASSUMPTIONS = ['SQLite only; offline provider of bitcoinlib_test', 'all cosigner
 SHARDS = {'quick': 16, 'thorough': 16}
 WALL_CAP = {'quick': 900, 'thorough': 3400}
 NET = 'bitcoinlib_test'
+# nonces k whose r = x(kG) starts with 30 / 02 / 03 / 04 / 00
+SPECIAL_R_NONCES = [102, 160, 227, 245, 441, 908, 133, 275, 45, 145, 153, 246, 102, 160]
 HARD = 0x80000000
 
 
@@ -209,6 +211,25 @@ def _run_case_inner(ctx, case):
                 s_.add(creator)
         except Exception as e:
             bad('sign.raises', 'creator sign raised %r' % e)
+        if case.get('special_r') is not None:
+            # the creator's signature is made with a nonce whose r starts with a byte that format sniffing could take
+            # for something else (30 = DER sequence tag, 02/03/04 = public key prefixes, 00): a valid signature of the
+            # creator like any other, it has to survive every hand-off
+            try:
+                from bitcoinlib.keys import sign as _lsign2
+                kk = SPECIAL_R_NONCES[case['special_r'] % len(SPECIAL_R_NONCES)]
+                for k_, inp in enumerate(t.inputs):
+                    priv = [x for x in inp.keys if x.is_private]
+                    if not priv or len(inp.signatures) != 1:
+                        raise ValueError('creator signature not found')
+                    digest = t.signature_hash(k_, 1, inp.witness_type)
+                    ns = _lsign2(digest, priv[0], k=kk + k_, hash_type=1)
+                    ns.public_key = inp.signatures[0].public_key
+                    inp.signatures = [ns]
+                    inp.update_scripts()
+                flags.add('special_r_signature')
+            except Exception as e:
+                ctx.refusal('special_r.%s' % type(e).__name__)
         _judge(ctx, case, t, signed, m, spk, amount, 'creator', flags)
         if case.get('resign_nonces') and m >= 2:
             # the SAME cosigner signs the same digest again with other nonces: m signatures, one signer. Judged on a
@@ -568,6 +589,7 @@ def _strategy(ctx):
                 'resign_nonces': draw(st.sampled_from([False, False, True])),
                 'post_edit': draw(st.sampled_from([None, 'sign_replace', 'sign_and_update', 'sign'])),
                 'post_resign': draw(st.booleans()),
+                'special_r': draw(st.sampled_from([None, None, 0, 1, 2, 3, 4, 6, 8, 10])),
                 'bulk': draw(st.sampled_from([0, 0, 2, 3])), 'bulk_change': draw(st.sampled_from([0, 0, 1])), 'creator': draw(st.integers(0, n - 1)), 'handoffs': handoffs,
                 'rng': draw(st.integers(0, 2 ** 31))}
     return cases()
